@@ -5,7 +5,7 @@ from __future__ import annotations
 from beancount.core import amount, position, inventory
 
 from .. import registry
-from ..symex import Sym, T, SList, Engine, Exec, show, canon, contains
+from ..symex import Sym, T, SList, Engine, Exec, show, canon, contains, early_exits
 from ..loader import AnalysisError, loc
 from ..report import RuleResult
 from .sx_exec import loop_events
@@ -156,6 +156,11 @@ def _census_cases(P, res, name, census, convname):
                          f'currencies of the column', loc(census))
                 break
             counted = [e for e in p.events if e[0] == 'aug' and isinstance(e[1], T) and e[1].op == 'item']
+            if early_exits(p, drows):
+                ok = False
+                res.fail(construct, 'siblings:census', f'convert_col_{name} stops scanning the column at a {"NULL" if cell_cls == "NULL" else "non-NULL"} '
+                         f'cell: currencies that first occur in later rows get no column and their amounts are dropped', loc(census))
+                break
             if cell_cls == 'NULL':
                 if counted:
                     ok = False
@@ -337,6 +342,9 @@ def rule_identity(P) -> RuleResult:
             prods = [e for d, e in (inner or []) if e[0] == 'produce' and d == 0 and e[1] == orows.id]
             if len(prods) == 1:
                 rowval = prods[0][2]
+        if early_exits(p, drows):
+            res.fail(construct, 'identity:rows', 'the conversion stops before the last input row', loc(fi))
+            continue
         drow = T('elem', (drows,))
         want_row = ('L', tuple(canon(T('call', (show(c), (drow, DFORMAT), ()))) for c in want_convs))
         got_row = canon(rowval) if rowval is not None else None
